@@ -3,10 +3,10 @@
    Vocabulary (Spec/Ucount.v): a pool z is listed from the largest value down and is [grouped] by the
    tie vector Tr = rev T (highest rank first); a labelling l in [labs N n1] marks the size-n1 subset that
    forms sample 1; [twoU_lab] is 2U of the relabelled data (pairs a>b count 2, a=b count 1);
-   [count_le]/[count_eq] count labellings by 2U.  Model (Model/Udist.v, Model/Choose.v): [choose],
+   [count_le]/[count_eq] count labellings by 2U.  Model (Model/Udist.v, Model/GEChoose.v): [choose],
    [tiedA] (memoised A_k recurrence with its three leaves), [untied_p]/[untied_c], [udist_pmf]/[udist_cdf]. *)
 From Coq Require Import List ZArith QArith Qround.
-From MM Require Import Base.Num Base.GEComb Spec.Ucount Proofs.Ucount Model.Choose Model.Udist
+From MM Require Import Base.Num Base.GEComb Spec.Ucount Proofs.Ucount Model.GEChoose Model.Udist
   Proofs.Udist Proofs.UdistTied Proofs.UdistTable Proofs.UdistLaws Proofs.UdistUntied Proofs.UdistCor.
 Import ListNotations.
 Local Open Scope Z_scope.
